@@ -3,6 +3,7 @@
 package req
 
 import (
+	"crypto/tls"
 	"fmt"
 	"strconv"
 	"strings"
@@ -48,6 +49,8 @@ func c13GenSeq(s *verifh.Session, c int, allowPar bool) []c13SeqStep {
 	k := 2 + r.Intn(3)
 	// the first sequences walk through the basic shapes
 	shapes := [][]string{ // per step: client op / request-level yes-no
+		{"set-sync", "clone", "set-async"},
+		{"set-sync", "clone+rq", "asyncall"},
 		{"off+rq", "keep+rq"},
 		{"off", "keep+rq"},
 		{"off", "set"},
@@ -74,16 +77,32 @@ func c13GenSeq(s *verifh.Session, c int, allowPar bool) []c13SeqStep {
 		} else if i == 0 {
 			op = verifh.Pick(r, []string{"off", "off", "set", "reenable"})
 		} else {
-			op = verifh.Pick(r, []string{"keep", "keep", "off", "set", "reenable"})
+			op = verifh.Pick(r, []string{"keep", "keep", "off", "set", "reenable", "clone", "clone", "asyncall"})
+		}
+		if op == "asyncall" && cur == nil {
+			op = "set" // EnableDumpAllAsync on a client without dump options would dump to stdout
 		}
 		switch op {
 		case "off":
 			cur = nil
-		case "set", "reenable":
+		case "set", "reenable", "set-sync", "set-async":
 			cur = c13GenDumper(s, 10+100*(i+1), r.Intn(16), r.Intn(2) == 0)
+			if op == "set-sync" || op == "set-async" {
+				cur.async = op == "set-async"
+				cur.flags = [4]bool{true, true, true, true}
+				op = "set"
+			}
 			if r.Intn(2) == 0 {
 				cur.flags[2] = true // response header: the part a connection-level cache would get wrong
 			}
+		case "asyncall":
+			// EnableDumpAllAsync(): same writers and parts, Async switched on in place
+			c2 := *cur
+			c2.async = true
+			cur = &c2
+		case "clone":
+			// the following requests are sent from Client.Clone(): same configuration and
+			// writers, a dumper (and connection) of its own
 		}
 		st.clientOp = op
 		st.cfg.cl = cur
@@ -106,7 +125,7 @@ func c13GenSeq(s *verifh.Session, c int, allowPar bool) []c13SeqStep {
 		for i := 0; i+1 < len(steps); i++ {
 			// concurrent requests share the client-level writers: only pairs without a
 			// client-level dumper run in parallel, each with its own request-level writers
-			if steps[i].cfg.cl == nil && steps[i+1].cfg.cl == nil && steps[i+1].clientOp != "set" && steps[i+1].clientOp != "reenable" && r.Intn(2) == 0 {
+			if steps[i].cfg.cl == nil && steps[i+1].cfg.cl == nil && steps[i+1].clientOp != "set" && steps[i+1].clientOp != "reenable" && steps[i+1].clientOp != "clone" && r.Intn(2) == 0 {
 				steps[i].par = true
 				i++
 			}
@@ -115,10 +134,19 @@ func c13GenSeq(s *verifh.Session, c int, allowPar bool) []c13SeqStep {
 	return steps
 }
 
-// c13SeqClientOp brings the client-level dump into the state the step asks for.
-func c13SeqClientOp(cl *Client, st c13SeqStep, log *c13Log, dumpOn bool) {
+// c13SeqClientOp brings the client-level dump into the state the step asks for and returns the
+// client the following requests are sent from. reinit re-applies the lane's protocol setup to a
+// clone (Client.Clone does not carry the lanes' h2c dial hook / HTTP/3 test TLS field).
+func c13SeqClientOp(cl *Client, st c13SeqStep, log *c13Log, dumpOn bool, reinit func(*Client) *Client) *Client {
+	if st.clientOp == "clone" {
+		if dumpOn {
+			time.Sleep(2 * time.Millisecond)
+			c13Flush(cl)
+		}
+		return reinit(cl.Clone()) // the baseline sequence clones at the same point
+	}
 	if !dumpOn || st.clientOp == "keep" {
-		return
+		return cl
 	}
 	// let the previous exchange finish dumping (write loops dump after they wrote), drain the queue
 	time.Sleep(2 * time.Millisecond)
@@ -131,12 +159,15 @@ func c13SeqClientOp(cl *Client, st c13SeqStep, log *c13Log, dumpOn bool) {
 	case "set":
 		cl.SetCommonDumpOptions(st.cfg.cl.options(log))
 		cl.EnableDumpAll()
+	case "asyncall":
+		cl.EnableDumpAllAsync()
 	case "reenable":
 		if cl.Dump != nil {
 			cl.DisableDumpAll()
 		}
 		cl.EnableDump(st.cfg.cl.options(log))
 	}
+	return cl
 }
 
 func c13SeqSend(cl *Client, st c13SeqStep, base string, log *c13Log, dumpOn bool) c13Result {
@@ -155,11 +186,13 @@ func c13SeqSend(cl *Client, st c13SeqStep, base string, log *c13Log, dumpOn bool
 }
 
 // c13SeqRun sends the whole sequence from one fresh client.
-func c13SeqRun(cl *Client, steps []c13SeqStep, base string, dumpOn bool) ([]c13Result, *c13Log) {
-	log := &c13Log{}
+func c13SeqRun(cl *Client, steps []c13SeqStep, base string, dumpOn bool, reinit func(*Client) *Client, log *c13Log, clients *[]*Client) []c13Result {
 	res := make([]c13Result, len(steps))
 	for i := 0; i < len(steps); i++ {
-		c13SeqClientOp(cl, steps[i], log, dumpOn)
+		cl = c13SeqClientOp(cl, steps[i], log, dumpOn, reinit)
+		if steps[i].clientOp == "clone" {
+			*clients = append(*clients, cl)
+		}
 		if steps[i].par && i+1 < len(steps) {
 			var wg sync.WaitGroup
 			for _, j := range []int{i, i + 1} {
@@ -175,7 +208,27 @@ func c13SeqRun(cl *Client, steps []c13SeqStep, base string, dumpOn bool) ([]c13R
 		}
 		res[i] = c13SeqSend(cl, steps[i], base, log, dumpOn)
 	}
-	return res, log
+	return res
+}
+
+// c13SeqGuarded runs a sequence under a harness deadline: a request that never returns (a
+// transport loop blocked in DumpTo) must not take the lane down; it is reported.
+func c13SeqGuarded(mk func() *Client, steps []c13SeqStep, base string, dumpOn bool, reinit func(*Client) *Client) (res []c13Result, log *c13Log, clients []*Client, hung bool) {
+	log = &c13Log{}
+	cl := mk().SetTimeout(3 * time.Second)
+	all := []*Client{cl}
+	ch := make(chan []c13Result, 1)
+	go func() { ch <- c13SeqRun(cl, steps, base, dumpOn, reinit, log, &all) }()
+	select {
+	case res = <-ch:
+		return res, log, all, false
+	case <-time.After(5 * time.Second):
+		res = make([]c13Result, len(steps))
+		for i := range res {
+			res[i].err = "hung"
+		}
+		return res, log, nil, true
+	}
 }
 
 // c13SeqPending builds the model query: per step the dumpers and the four parts (tokens).
@@ -221,6 +274,7 @@ func TestVerif_C13_seqh1(t *testing.T) {
 	features := []string{"", "", "", "1xx", "long", "many", "fold", "barelf", "nearly-long"}
 	n := verifh.N(120, 3000)
 	var pend []*c13Pending
+	hangs := 0
 	for c := 0; c < n; c++ {
 		steps := c13GenSeq(s, c, false)
 		scripts := map[string]c13Resp{}
@@ -237,26 +291,35 @@ func TestVerif_C13_seqh1(t *testing.T) {
 			peer.scripts[st.path] = []c13Resp{resp}
 		}
 		peer.mu.Unlock()
-		run := func(dumpOn bool) ([]c13Result, *c13Log, map[string]c13Attempt, *Client) {
+		run := func(dumpOn bool) ([]c13Result, *c13Log, map[string]c13Attempt, []*Client, bool) {
 			peer.reset()
-			cl := C().SetTimeout(5 * time.Second)
-			res, log := c13SeqRun(cl, steps, base, dumpOn)
-			cl.CloseIdleConnections()
+			res, log, cls, hung := c13SeqGuarded(C, steps, base, dumpOn, func(c *Client) *Client { return c })
+			for _, cl := range cls {
+				cl.CloseIdleConnections()
+			}
 			peer.waitIdle()
 			by := map[string]c13Attempt{}
 			for _, a := range peer.reset() {
 				by[a.path] = a
 			}
-			return res, log, by, cl
+			return res, log, by, cls, hung
 		}
-		offRes, _, offAtt, _ := run(false)
-		onRes, log, onAtt, cl := run(true)
+		offRes, _, offAtt, _, _ := run(false)
+		onRes, log, onAtt, cls, hung := run(true)
 		parts := make([][4]string, len(steps))
 		var why []string
+		if hung {
+			why = append(why, "the sequence with dump on never returned (a request hangs)")
+			hangs++
+		}
+		clones := 0
 		conns := map[int]bool{}
 		for i, st := range steps {
 			a, b := offAtt[st.path], onAtt[st.path]
 			conns[b.conn] = true
+			if st.clientOp == "clone" {
+				clones++
+			}
 			if a.head != b.head || a.wire != b.wire {
 				why = append(why, fmt.Sprintf("request %d: bytes sent differ (head %q vs %q, body %d vs %d bytes)", i, c13Clip(a.head, 120), c13Clip(b.head, 120), len(a.wire), len(b.wire)))
 			}
@@ -268,10 +331,11 @@ func TestVerif_C13_seqh1(t *testing.T) {
 			}
 			parts[i] = [4]string{b.head, b.payload, scripts[st.path].head, offRes[i].body}
 		}
-		p := c13SeqPending(fmt.Sprintf("seqh1 #%d %s", c, c13SeqHuman(steps)), c13SeqHuman(steps), steps, parts, log, cl)
+		p := c13SeqPending(fmt.Sprintf("seqh1 #%d %s", c, c13SeqHuman(steps)), c13SeqHuman(steps), steps, parts, log, nil)
+		p.cls = cls
 		p.why = why
-		p.nontrivial = len(conns) == 1
-		if len(conns) == 1 {
+		p.nontrivial = len(conns) == 1+clones
+		if len(conns) == 1+clones { // one keep-alive connection per client (a clone has its own)
 			cnt.add(s, "one-connection")
 		} else {
 			cnt.add(s, "connection-not-reused")
@@ -291,9 +355,12 @@ func TestVerif_C13_seqh1(t *testing.T) {
 			c13Finish(t, s, pend)
 			pend = nil
 		}
+		if hangs >= 2 {
+			break // broken delivery: three hung sequences are evidence enough
+		}
 	}
 	c13Finish(t, s, pend)
-	for _, must := range []string{"one-connection", "client-op=set", "client-op=reenable", "client-op=off", "client-op=keep", "request-level", "no-dump-step"} {
+	for _, must := range []string{"one-connection", "client-op=clone", "client-op=asyncall", "client-op=set", "client-op=reenable", "client-op=off", "client-op=keep", "request-level", "no-dump-step"} {
 		if cnt[must] == 0 {
 			t.Errorf("generator never reached bucket %q", must)
 		}
@@ -305,9 +372,10 @@ func TestVerif_C13_seqh1(t *testing.T) {
 }
 
 // c13SeqG is the HTTP/2 / HTTP/3 variant: one multiplexed connection, some requests concurrent.
-func c13SeqG(t *testing.T, s *verifh.Session, scripts *c13GScripts, mk func() *Client, base string, withTrailers bool, n int, proto string) {
+func c13SeqG(t *testing.T, s *verifh.Session, scripts *c13GScripts, mk func() *Client, reinit func(*Client) *Client, base string, withTrailers bool, n int, proto string) {
 	r := s.Rand()
 	cnt := c13Counter{}
+	hangs := 0
 	features := []string{"", "", "", "1xx", "long", "many", "trailer", "empty-value"}
 	var pend []*c13Pending
 	for c := 0; c < n; c++ {
@@ -323,13 +391,14 @@ func c13SeqG(t *testing.T, s *verifh.Session, scripts *c13GScripts, mk func() *C
 			scripts.scripts[st.path] = []c13GResp{resp}
 		}
 		scripts.mu.Unlock()
-		run := func(dumpOn bool) ([]c13Result, *c13Log, map[string]c13GAttempt, *Client) {
+		run := func(dumpOn bool) ([]c13Result, *c13Log, map[string]c13GAttempt, []*Client, bool) {
 			scripts.reset()
-			cl := mk().SetTimeout(5 * time.Second)
-			res, log := c13SeqRun(cl, steps, base, dumpOn)
-			cl.CloseIdleConnections()
-			if cl.t3 != nil {
-				cl.t3.Close()
+			res, log, cls, hung := c13SeqGuarded(mk, steps, base, dumpOn, reinit)
+			for _, cl := range cls {
+				cl.CloseIdleConnections()
+				if cl.t3 != nil {
+					cl.t3.Close()
+				}
 			}
 			by := map[string]c13GAttempt{}
 			for _, a := range scripts.reset() {
@@ -339,12 +408,16 @@ func c13SeqG(t *testing.T, s *verifh.Session, scripts *c13GScripts, mk func() *C
 					}
 				}
 			}
-			return res, log, by, cl
+			return res, log, by, cls, hung
 		}
-		offRes, _, offAtt, _ := run(false)
-		onRes, log, onAtt, cl := run(true)
+		offRes, _, offAtt, _, _ := run(false)
+		onRes, log, onAtt, cls, hung := run(true)
 		parts := make([][4]string, len(steps))
 		var why []string
+		if hung {
+			why = append(why, "the sequence with dump on never returned (a request hangs)")
+			hangs++
+		}
 		for i, st := range steps {
 			a, b := offAtt[st.path], onAtt[st.path]
 			if d := c13GAttemptsEqual([]c13GAttempt{a}, []c13GAttempt{b}); d != "" {
@@ -369,16 +442,20 @@ func c13SeqG(t *testing.T, s *verifh.Session, scripts *c13GScripts, mk func() *C
 				cnt.add(s, "request-level")
 			}
 		}
-		p := c13SeqPending(fmt.Sprintf("%s #%d %s", s2lane(proto), c, c13SeqHuman(steps)), c13SeqHuman(steps), steps, parts, log, cl)
+		p := c13SeqPending(fmt.Sprintf("%s #%d %s", s2lane(proto), c, c13SeqHuman(steps)), c13SeqHuman(steps), steps, parts, log, nil)
+		p.cls = cls
 		p.why = why
 		pend = append(pend, p)
 		if len(pend) >= 100 {
 			c13Finish(t, s, pend)
 			pend = nil
 		}
+		if hangs >= 2 {
+			break
+		}
 	}
 	c13Finish(t, s, pend)
-	for _, must := range []string{"client-op=set", "client-op=reenable", "client-op=off", "client-op=keep", "request-level", "concurrent-pair"} {
+	for _, must := range []string{"client-op=set", "client-op=clone", "client-op=asyncall", "client-op=reenable", "client-op=off", "client-op=keep", "request-level", "concurrent-pair"} {
 		if cnt[must] == 0 {
 			t.Errorf("generator never reached bucket %q", must)
 		}
@@ -399,7 +476,8 @@ func TestVerif_C13_seqh2(t *testing.T) {
 	peer := c13NewH2Peer(t)
 	defer peer.close()
 	mk := func() *Client { return C().EnableForceHTTP2().EnableH2C() }
-	c13SeqG(t, s, &peer.c13GScripts, mk, "http://"+peer.ln.Addr().String(), true, verifh.N(60, 1500), "HTTP/2.0")
+	reinit := func(c *Client) *Client { return c.EnableForceHTTP2().EnableH2C() }
+	c13SeqG(t, s, &peer.c13GScripts, mk, reinit, "http://"+peer.ln.Addr().String(), true, verifh.N(60, 1500), "HTTP/2.0")
 	s.Finish()
 }
 
@@ -408,6 +486,12 @@ func TestVerif_C13_seqh3(t *testing.T) {
 	peer := c13NewH3Peer(t)
 	defer peer.close()
 	mk := func() *Client { return c13H3Client(t) }
-	c13SeqG(t, s, &peer.c13GScripts, mk, "https://"+peer.ln.Addr().String(), false, verifh.N(40, 1000), "HTTP/3.0")
+	reinit := func(c *Client) *Client {
+		if c.t3 != nil {
+			c.t3.TLSClientConfig = &tls.Config{InsecureSkipVerify: true, NextProtos: []string{"h3"}}
+		}
+		return c
+	}
+	c13SeqG(t, s, &peer.c13GScripts, mk, reinit, "https://"+peer.ln.Addr().String(), false, verifh.N(40, 1000), "HTTP/3.0")
 	s.Finish()
 }
